@@ -104,7 +104,8 @@ def staker_set_calls(P, f, names):
 
 
 def error_blocks(P, f):
-    """blocks that are on error paths only: `?` residual propagation and `_0 = Err(..)`"""
+    """blocks that are on error paths only: `?` residual propagation and `Err(..)` that end up as the return value -
+    assigned to the return place directly or to a local that is later moved into it (the return slot of a spliced helper)"""
     out = set()
     for bid, t in f.calls():
         if t["callee"].get("trait") == "std::ops::FromResidual" and t["dst"]["l"] == 0:
@@ -112,6 +113,10 @@ def error_blocks(P, f):
     for bid, i, st in f.stmts():
         if st["k"] == "assign" and st["dst"]["l"] == 0 and not st["dst"]["p"] and st["rv"].get("k") == "aggregate" and st["rv"].get("variant") == "Err":
             out.add(bid)
+    for val, conds, site in q.value_cases(P, f, 0):
+        v = peel(val)
+        if (v[0] == "call" and v[1].endswith("FromResidual::from_residual")) or (v[0] == "agg" and v[1].endswith("Result::Err")):
+            out.add(site[0])
     return out
 
 
@@ -300,7 +305,9 @@ def r2(ctx, cfg):
             ctx.ob(R, root, "panic-site:%s%s" % (c["name"], q_tag(f, t)), why is not None,
                    "unjustified panicking call %s in %s (line %d): a valid staking history could crash the simulator" % (k, f.key, t["line"]), fn=f,
                    line=t["line"], sample=why)
-    ctx.floor(R, "panicking call sites in staking.rs", n, 4)
+    # (the pop_front().unwrap() of process_queue may legitimately disappear - `while let Some(x) = pop..` - so the floor
+    # is on the sites that exist on the confirmed tree minus that one)
+    ctx.floor(R, "panicking call sites in staking.rs", n, 3)
     ctx.floor(R, "sites relying on the pairing invariant (update_rewards, slash)", n_inv, 2)
     # update_rewards fails (does not panic) for an unknown validator
     key = SK + "update_rewards"
@@ -570,7 +577,7 @@ def r5(ctx, cfg):
     ctx.ob(R, key, "paid-in-bonded-denom", okd, "payout denomination is not staking_info.bonded_denom", fn=f, sample="coin(amount, bonded_denom)")
     # one entry is popped per payout, and it is the one whose maturity was checked (pop_front after front())
     pops = [(b, tt) for b, tt in f.calls() if tt["callee"]["key"].endswith("VecDeque::pop_front")]
-    ok = len(pops) == 1 and cf.dominates(pops[0][0], bid) and any(c[0] == "variant_in" and c[2] == ("Some",) and peel(c[1])[0] == "call" and peel(c[1])[1].endswith("VecDeque::front")
+    ok = len(pops) == 1 and cf.dominates(pops[0][0], bid) and any(c[0] == "variant_in" and c[2] in (("Some",), ("Continue",)) and peel(c[1])[0] == "call" and peel(c[1])[1].endswith("VecDeque::front")
                                                                     for e, c in q.dominating_conditions(P, f, pops[0][0]))
     ctx.ob(R, key, "pays-the-front-entry", ok, "the paid entry is not the checked front entry", fn=f, sample="front() checked, pop_front() paid")
     # the payout loop only stops when the queue is empty or its front entry is not due yet (or on an error): every entry
@@ -581,8 +588,11 @@ def r5(ctx, cfg):
         loop = {n for n in cf.nodes() if pb in cf.reachable_from(n) and (n == pb or n in cf.reachable_from(pb))}
         def allowed_edge(e):
             cs = q.edge_conditions(P, f, e)
-            empty = any(c[0] == "variant_in" and "None" in c[2] and contains(c[1], lambda y: y[0] == "call" and y[1].endswith("VecDeque::front")) for c in cs) or \
-                any(c[0] == "variant_not_in" and c[2] == ("Some",) and contains(c[1], lambda y: y[0] == "call" and y[1].endswith("VecDeque::front")) for c in cs)
+            def on_queue_head(o):
+                return contains(o, lambda y: y[0] == "call" and y[1].endswith(("VecDeque::front", "VecDeque::pop_front")))
+            # front() is None / `front()?` breaks / pop_front() yields None: the queue is empty
+            empty = any(c[0] == "variant_in" and ("None" in c[2] or "Break" in c[2]) and on_queue_head(c[1]) for c in cs) or \
+                any(c[0] == "variant_not_in" and c[2] in (("Some",), ("Continue",)) and on_queue_head(c[1]) for c in cs)
             not_due = any(c[0] == "bool" and c[1][0] == "lt" and c[1][2] is True and is_block_time(c[1][1][0]) and is_front_payout_at(c[1][1][1]) for c in cs)
             return empty or not_due
         allowed = [n for n in cf.nodes() if isinstance(n, tuple) and n[0] == "e" and allowed_edge(n)]
